@@ -267,6 +267,37 @@ def d_bidir_bus(s, w=3):
     return {'ins': {'a': a}}
 
 
+class MoorePhase(Logic):
+    """Moore-style behavioural leaf: clock() moves the state, propagate() decodes the outputs from the state (the style of the
+    library's HIL/AXI wrappers).  Instantiated FIRST in its design, before every reader of a sequential output."""
+
+    def __init__(self, parent, name, adv, ph, last):
+        super().__init__(parent, name)
+        self.adv = self.addIn('adv', adv)
+        self.ph = self.addOut('ph', ph)
+        self.last = self.addOut('last', last)
+        self.state = 0
+
+    def clock(self):
+        if self.adv.get():
+            self.state = (self.state + 1) & 3
+
+    def propagate(self):
+        self.ph.put(self.state)
+        self.last.put(1 if self.state == 3 else 0)
+
+
+def d_moore_first(s):
+    adv = s.wire('adv', 1)
+    ph, last = s.wire('ph', 2), s.wire('last', 1)
+    MoorePhase(s, 'fsm', adv, ph, last)
+    q0, q1, n = s.wire('q0', 2), s.wire('q1', 2), s.wire('n', 2)
+    Reg(s, 'r0', ph, q0, enable=last)
+    Reg(s, 'r1', q0, q1)
+    py4hw.Not(s, 'inv', q1, n)
+    return {'ins': {'adv': adv}}
+
+
 def d_two_domains(s, w=3, gate='input', enw=1):
     """top-level Reg chain crossing into a Box that has its own (gated) clock driver"""
     a = s.wire('a', w)
@@ -408,4 +439,5 @@ DESIGNS = {
     'counter-edge-reg': d_counter_edge,
     'sequence-reg': d_seq,
     'registered driver on a bidirectional net': d_bidir_bus,
+    'Moore-style leaf (clock + propagate) instantiated first': d_moore_first,
 }
